@@ -1,0 +1,8 @@
+//go:build !verif
+
+package memoization
+
+// yieldPoint marks the internal steps of the memoizer at which a verification
+// harness built with the "verif" tag can interleave operations. It does nothing
+// in normal builds.
+func yieldPoint(string) {}
